@@ -5,6 +5,6 @@ Extraction Language OCaml.
 Extraction "c15_model.ml"
   Z.add Z.mul Z.opp Z.abs Z.div_eucl Z.sub Z.eqb Z.leb Z.ltb Z.of_nat Z.to_nat
   Base.FILL
-  C15.c15_am_faces C15.c15_spans C15.c15_poly C15.c15_gdf C15.c15_line
+  C15.c15_am_faces C15.c15_spans C15.c15_poly C15.c15_gdf C15.c15_line C15.c15_poly_tables C15.c15_rows C15.c15_da_from_tables C15.c15_poly_full
   C15.c15_init C15.c15_call C15.c15_da_call C15.c15_step C15.c15_obj_get
   C15.c15_sp_of C15.c15_writes_of C15.c15_reads_of C15.c15_copies_of C15.c15_keys_ok.
